@@ -10,7 +10,7 @@ from .. import recon as R
 ID = "C01"
 LEVEL = "proof"
 PROP_FILE = "Properties/C01.v"
-PROOF_FILES = ["Gen/ThlGen.v", "Proofs/ThlGenProofs.v", "Gen/TableGen.v", "Proofs/TableGenProofs.v", "Gen/EntryGen.v", "Proofs/EntryGenProofs.v", "Gen/EvalGen.v", "Proofs/EvalGenProofs.v", "Proofs/AllAnyProofs.v", "Proofs/ThlProofs.v", "Proofs/ExhProofs.v", "Proofs/EntryProofs.v", "Proofs/ReconProofs.v", "Proofs/PathFacts.v",
+PROOF_FILES = ["Proofs/ReviewCThlAny.v", "Gen/ThlGen.v", "Proofs/ThlGenProofs.v", "Gen/TableGen.v", "Proofs/TableGenProofs.v", "Gen/EntryGen.v", "Proofs/EntryGenProofs.v", "Gen/EvalGen.v", "Proofs/EvalGenProofs.v", "Proofs/AllAnyProofs.v", "Proofs/ThlProofs.v", "Proofs/ExhProofs.v", "Proofs/EntryProofs.v", "Proofs/ReconProofs.v", "Proofs/PathFacts.v",
                "Model/Thl.v", "Model/Recon.v", "Model/Entry.v", "Base/PathB.v", "Base/Ext.v"]
 TRUSTED = [
     "translator translator/pyfun.py + the type tables in translator/table_gen.py and thl_gen.py: the THL solver of compute/reconciliation.py (_compute_thl_try_speciation, _compute_thl_try_duplication_transfer, _compute_thl_table, _decode_thl_table, reconcile_thl, reconcile_lca) and the table classes it runs on are translated into Gen/ThlGen.v and Gen/TableGen.v on every run and proved equal to Model/Thl.v / Model/Entry.v (object nodes = identifiers, species = root paths, LCA structure = the path operations)","model Model/Thl.v of _compute_thl_table/_decode_thl_table/reconcile_thl and generate_all/reconcile_exhaustive (after fixes D2-D4), built on the Entry model (C16) and the evaluator model (C06)"]
